@@ -158,7 +158,7 @@ def value_store():
 
 
 def all_small():
-    return form_accessor() + value_store()
+    return form_accessor() + value_store() + input_store_init()
 
 
 if __name__ == '__main__':
@@ -167,3 +167,79 @@ if __name__ == '__main__':
     extract.setup_path()
     for o in all_small():
         print(o.status, o.id, o.solver_output[:200])
+
+
+def input_store_init():
+    """InputStore.__init__ / write: the file is parsed and written with the default ConfigParser dialect (A-CFG round trip)."""
+    import configparser
+    from habutax import inputs
+    log = {}
+
+    class Spec(corevc.Spec):
+        def call_hook(self, it, f, args, kwargs, node):
+            if f is configparser.ConfigParser:
+                log.setdefault('parser', []).append((list(args), dict(kwargs)))
+                return Opaque(fresh('config', OBJ), 'config')
+            if f is open:
+                log.setdefault('open', []).append(list(args))
+                return Opaque(fresh('file', OBJ), 'file')
+            if f is isinstance and len(args) == 2 and isinstance(args[0], str):
+                return False
+            return NotImplemented
+
+        def opaque_call(self, it, obj, attr, args, kwargs, node):
+            if obj.kind == 'config' and attr in ('read_file', 'write'):
+                log.setdefault(attr, []).append((list(args), dict(kwargs)))
+                return None
+            raise Unsupported(f'{obj.kind}.{attr}')
+
+    class Interp(corevc.CoreInterp):
+        def enter_context(self, ctx, item):
+            return ctx
+    spec = Spec()
+    ex = sym.Explorer()
+
+    def thunk(run):
+        it = Interp(run, spec)
+        me = AObj(inputs.InputStore, {}, name='store')
+        it.call_function(inputs.InputStore.__init__, [me, 'INPUT_FILE'])
+        it.call_function(inputs.InputStore.write, [me, 'INPUT_FILE'])
+        return me
+    paths = ex.explore(thunk)
+    ok = len(paths) == 1 and paths[0].outcome[0] == 'return' and log.get('parser') == [([], {})] and len(log.get('read_file', [])) == 1 \
+        and log['read_file'][0][1] == {} and len(log.get('write', [])) == 1 and log['write'][0][1] == {} and log.get('open') == [['INPUT_FILE'], ['INPUT_FILE', 'w']]
+    detail = str({k: str(v)[:120] for k, v in log.items()}) + ' ' + str([p.outcome for p in paths])[:200]
+    if ok:
+        return [Ob(id='SMALL/InputStore.__init__+write/default-dialect', backend='symexec', function='inputs.py:InputStore.__init__/write',
+                   clause='the input file is read into and written from one ConfigParser built with default options (so that what is written back parses to the same map, A-CFG)',
+                   vc=detail[:300], note='C13,C20,C05')]
+    return [Ob(id='SMALL/InputStore.__init__+write/default-dialect', status=oblig.REFUTED, backend='symexec', function='inputs.py:InputStore.__init__/write',
+               clause='NOT: the input file is parsed and written with the default ConfigParser dialect', solver_output=detail[:400], witness={'calls': detail[:400]},
+               replay=native_store_roundtrip(), note='C13,C20,C05')]
+
+
+def native_store_roundtrip():
+    import configparser
+    import os
+    import tempfile
+    from habutax import inputs
+    runs, bad = [], False
+    for text in ('12 Main St #4', 'a ; b', 'x=y', '100%', ' padded '):
+        fd, path = tempfile.mkstemp(dir='/dev/shm', suffix='.ini')
+        os.close(fd)
+        try:
+            st = inputs.InputStore(path)
+            if not st.config.has_section('f'):
+                st.config.add_section('f')
+            try:
+                st.config.set('f', 'k', text)
+                st.write(path)
+                st2 = inputs.InputStore(path)
+                got = st2.config.get('f', 'k')
+            except BaseException as ex:
+                got = f'raised {type(ex).__name__}'
+            runs.append({'answer': text, 'read_back': got})
+            bad = bad or (got != text and got != text.strip())
+        finally:
+            os.unlink(path)
+    return {'reproduced': bad, 'runs': runs}
